@@ -538,7 +538,11 @@ func genTrits(t *rapid.T) tritsCase {
 		group = 8
 	}
 	ng := rapid.IntRange(0, 12).Draw(t, "groups")
-	data := rapid.SliceOfN(rapid.Byte(), ng, ng).Draw(t, "bytes")
+	longInput := h.Pick(t, "long", 30, 1) == 1
+	if longInput { // hundreds or thousands of groups: an invalid group may sit at index 255, 256, 511, 65535, ...
+		ng = h.OneOf(t, "lgroups", 256, 257, 300, 512, 513, 600, 65536, 65537) + rapid.IntRange(0, 3).Draw(t, "lextra")
+	}
+	data := h.BytesN(t, "bytes", ng)
 	var tr []int8
 	if group == 6 {
 		tr = ref.B1T6Encode(data)
@@ -549,6 +553,9 @@ func genTrits(t *rapid.T) tritsCase {
 	nbad := h.Pick(t, "nbad", 5, 4, 1)
 	for b := 0; b < nbad && ng > 0; b++ {
 		gi := rapid.IntRange(0, ng-1).Draw(t, "badgroup")
+		if longInput {
+			gi = h.OneOf(t, "lbad", 254, 255, 256, 257, 510, 511, 512, 65534, 65535, 65536, ng-1) % ng
+		}
 		if group == 6 {
 			// a value outside -128..127: 128..364 or -364..-129
 			v := rapid.IntRange(128, 364).Draw(t, "badv")
